@@ -51,12 +51,12 @@ theorem powVal_negPow (w : Str) (hw : PowerText w) : powVal (negPow w) = - powVa
     · simpa using hm
     · simpa using hp
 
-theorem invertTable : invertNoPower = ['^', '-', '1'] ∧ invertJoin = ['^'] ∧
+theorem invertPower_branch_table : invertNoPower = ['^', '-', '1'] ∧ invertJoin = ['^'] ∧
     invertBranches = [('-', [], 1), ('+', ['-'], 1)] ∧ invertElse = (['-'], 0) := by decide
 
 theorem invertPower_atom (p u w : Str) (hp : p ∈ optPrefixes) (hu : u ∈ units) (hw : PowerText w) :
     Compound.invertPower (p ++ u ++ w) = p ++ u ++ negPow w := by
-  obtain ⟨hnp, hj, hb, he⟩ := invertTable
+  obtain ⟨hnp, hj, hb, he⟩ := invertPower_branch_table
   unfold Compound.invertPower
   rw [split_generic p u w hp hu hw]
   cases hw with
